@@ -1,5 +1,5 @@
 CONSTANTS Items <- ItemsSmall
- MaxLen = 4
+ MaxLen = 3
  Writer = "moves_private"
 INIT Init
 NEXT Next
